@@ -481,27 +481,27 @@ def alias_value(fn, name, pure_only=True):
   return ds[0]
 
 
-def expand(fn, e, depth=0, pure_only=True):
+def expand(fn, e, depth=0, pure_only=True, stop=()):
   """Copy of expression e with single-assignment locals replaced by what they stand for
   (recursively), so that `x = a.b; f(x.c)` and `f(a.b.c)` compare equal."""
   if e is None:
     return None
   class Tr(ast.NodeTransformer):
     def visit_Name(self, node):
-      if isinstance(node.ctx, ast.Load) and depth < 6:
+      if isinstance(node.ctx, ast.Load) and depth < 6 and node.id not in stop:
         v = alias_value(fn, node.id, pure_only)
         if v is not None and not any(isinstance(y, ast.Name) and y.id == node.id
                                      for y in ast.walk(v)):
-          return expand(fn, v, depth + 1, pure_only)
+          return expand(fn, v, depth + 1, pure_only, stop)
       return node
     def visit_Lambda(self, node):
       return node
   return Tr().visit(_copy.deepcopy(e))
 
 
-def canon(fn, e, pure_only=True):
-  """Normalised text of e with local aliases expanded."""
-  return text(expand(fn, e, pure_only=pure_only)) if e is not None else None
+def canon(fn, e, pure_only=True, stop=()):
+  """Normalised text of e with local aliases expanded (names in `stop` are kept)."""
+  return text(expand(fn, e, pure_only=pure_only, stop=stop)) if e is not None else None
 
 
 def deref(fn, e, depth=0):
@@ -708,6 +708,10 @@ def whole_of(fn, rd, e, at, is_base, wrappers=("list", "tuple"), depth=0):
       v = def_value(rd.cfg, d)
       if v is None:
         verdicts.append(False if d == ReachDefs.ENTRY else None)
+      elif _empty_container(v) and len(ds) == 1 and rd.du.muts.get(e.id):
+        comp = loop_as_comprehension(fn, rd.du, rd, e.id, at)
+        verdicts.append(None if comp is None else
+                        whole_of(fn, rd, comp, comp._loop_node, is_base, wrappers, depth + 1))
       else:
         verdicts.append(whole_of(fn, rd, v, d, is_base, wrappers, depth + 1))
     if all(x is True for x in verdicts):
@@ -759,3 +763,251 @@ def action_arg(call, names, kind, i):
 
 def action_nargs(call):
   return len(call.args) + len(call.keywords)
+
+
+# ------------------------------------------------------------- values through locals and loops
+def _empty_container(e):
+  """'list' / 'set' / 'dict' when e builds an empty container, else None."""
+  if isinstance(e, ast.List) and not e.elts:
+    return "list"
+  if isinstance(e, ast.Dict) and not e.keys:
+    return "dict"
+  if isinstance(e, ast.Call) and not e.args and not e.keywords and \
+      dotted(e.func) in ("list", "set", "dict", "OrderedDict", "collections.OrderedDict"):
+    return {"OrderedDict": "dict", "collections.OrderedDict": "dict"}.get(dotted(e.func),
+                                                                          dotted(e.func))
+  return None
+
+
+def _subst(e, env):
+  """Copy of e with the names of env replaced by their expressions."""
+  class Tr(ast.NodeTransformer):
+    def visit_Name(self, node):
+      if isinstance(node.ctx, ast.Load) and node.id in env:
+        return _copy.deepcopy(env[node.id])
+      return node
+  return Tr().visit(_copy.deepcopy(e))
+
+
+def loop_as_comprehension(fn, du, rd, name, at):
+  """When local `name`, read at node `at`, was built as
+        name = [] / set() / {}
+        for T in IT:  [if C:]  name.append(E) / name.add(E) / name[K] = V
+  (nothing else writes it), the equivalent ListComp / SetComp / DictComp node, else None. Simple
+  temporaries assigned in the loop body just before the write are substituted."""
+  cfg = rd.cfg
+  ds = rd.reaching(name, at)
+  if len(ds) != 1:
+    return None
+  d0 = next(iter(ds))
+  v0 = def_value(cfg, d0)
+  kind = _empty_container(v0) if v0 is not None else None
+  if kind is None:
+    return None
+  muts = {m for m in du.muts.get(name, set()) if m in cfg.reach_after({d0})}
+  if len(muts) != 1:
+    return None
+  m = cfg.nodes[next(iter(muts))]
+  chain = enclosing_chain_of(fn, m.stmt)
+  loops = [(i, s) for i, (s, f) in enumerate(chain) if isinstance(s, (ast.For, ast.While))]
+  if len(loops) != 1 or not isinstance(loops[0][1], ast.For) or loops[0][1].orelse:
+    return None
+  li, loop = loops[0]
+  if chain[li][1] != "body":
+    return None
+  # the loop is after the initialisation and over before the read
+  lnode = [n for n in cfg.nodes if n.kind == "for" and n.stmt is loop]
+  if not lnode or not cfg.dominated_by(lnode[0].id, {d0}) or at in nodes_of_stmts(
+      cfg, stmts_under(loop.body)) or at == lnode[0].id:
+    return None
+  # between the loop header and the write: only `if C:` (no else) nesting ...
+  ifs = []
+  for (s, f) in chain[li + 1:]:
+    if not (isinstance(s, ast.If) and f == "body" and not s.orelse):
+      return None
+    ifs.append(s.test)
+  # ... and the blocks contain nothing but plain temporaries and the write itself
+  env = {}
+  blocks = [loop.body] + [s.body for (s, f) in chain[li + 1:]]
+  for bi, block in enumerate(blocks):
+    inner = chain[li + 1 + bi][0] if bi < len(blocks) - 1 else m.stmt
+    for s in block:
+      if s is inner:
+        continue
+      if isinstance(s, ast.Assign) and len(s.targets) == 1 and isinstance(s.targets[0], ast.Name) \
+          and s.targets[0].id != name and not calls_in(s.value) and bi == len(blocks) - 1 and \
+          block.index(s) < block.index(inner):
+        env[s.targets[0].id] = _subst(s.value, env)
+        continue
+      return None
+  s = m.stmt
+  gen = ast.comprehension(target=loop.target, iter=loop.iter,
+                          ifs=[_subst(t, env) for t in ifs], is_async=0)
+  out = None
+  if isinstance(s, ast.Expr) and isinstance(s.value, ast.Call) and \
+      isinstance(s.value.func, ast.Attribute) and isinstance(s.value.func.value, ast.Name) and \
+      s.value.func.value.id == name and len(s.value.args) == 1 and not s.value.keywords:
+    meth = s.value.func.attr
+    if kind == "list" and meth == "append":
+      out = ast.ListComp(elt=_subst(s.value.args[0], env), generators=[gen])
+    elif kind == "set" and meth == "add":
+      out = ast.SetComp(elt=_subst(s.value.args[0], env), generators=[gen])
+  elif isinstance(s, ast.Assign) and len(s.targets) == 1 and isinstance(s.targets[0], ast.Subscript) \
+      and isinstance(s.targets[0].value, ast.Name) and s.targets[0].value.id == name and \
+      kind == "dict":
+    out = ast.DictComp(key=_subst(s.targets[0].slice, env), value=_subst(s.value, env),
+                       generators=[gen])
+  if out is not None:
+    ast.copy_location(out, loop)
+    ast.fix_missing_locations(out)
+    out._loop = loop
+    out._loop_node = lnode[0].id
+  return out
+
+
+def enclosing_chain_of(fn, stmt):
+  from ..astutil import enclosing_chain
+  return enclosing_chain(fn.node, stmt)
+
+
+def resolve(fn, du, rd, e, at, depth=0):
+  """What expression e, read at CFG node `at`, stands for: a local with one reaching plain binding
+  is replaced by the bound expression (repeatedly), a local built by an accumulating loop by the
+  equivalent comprehension. Returns (expression, node at which it is evaluated)."""
+  while isinstance(e, ast.Name) and depth < 8:
+    depth += 1
+    ds = rd.reaching(e.id, at)
+    if len(ds) != 1:
+      break
+    d = next(iter(ds))
+    v = def_value(rd.cfg, d)
+    if v is None:
+      break
+    comp = loop_as_comprehension(fn, du, rd, e.id, at) if _empty_container(v) else None
+    if comp is not None:
+      return comp, comp._loop_node
+    if du.muts.get(e.id) and _empty_container(v):
+      break
+    e, at = v, d
+  return e, at
+
+
+def return_values(fn, du, rd):
+  """[(return node, resolved returned expression or None, node where it is evaluated)]."""
+  out = []
+  for n in rd.cfg.nodes:
+    if n.kind == "return":
+      if n.stmt.value is None:
+        out.append((n, None, n.id))
+      else:
+        e, at = resolve(fn, du, rd, n.stmt.value, n.id)
+        out.append((n, e, at))
+  return out
+
+
+# ------------------------------------------------------------------------------ guards by role
+def only_if(cfg, nid, atom, want=True, kills=()):
+  """Every entry->nid path last learned atom == want (spelling of the guard does not matter)."""
+  from ..guards import guarded_by
+  return guarded_by(cfg, nid, atom, want, kills)
+
+
+def whenever(cfg, targets, atom, want=True, stops=None):
+  """Once a branch has established atom == want, every way on from there passes one of the
+  `targets` nodes before it reaches one of `stops` (default: the normal exit). False when no
+  branch establishes the fact at all."""
+  from ..guards import establishing_edges
+  edges = establishing_edges(cfg, atom, want)
+  if not edges:
+    return False
+  stops = set(stops) if stops is not None else {cfg.exit.id}
+  targets = set(targets)
+  starts = {b for (a, b) in edges}
+  return not (cfg.reach(starts, removed=targets) & stops)
+
+
+def guard_atoms(cfg, nid):
+  """[(expr, polarity)] facts that hold on every path to node nid, from the `if` tests whose
+  branches are cut by it: a fact is listed when nid is unreachable once the edges establishing
+  the opposite... (conservative: facts of every `if` one of whose two sides cannot reach nid)."""
+  from ..guards import facts
+  out = []
+  for n in cfg.nodes:
+    if n.kind != "if" or n.id not in cfg.if_true:
+      continue
+    t_succ = cfg.if_true[n.id]
+    exc = cfg.if_exc.get(n.id, set())
+    f_succ = set(cfg.succ[n.id]) - t_succ - exc
+    if nid not in cfg.reach_after({n.id}):
+      continue
+    via_t = nid in cfg.reach(t_succ) if t_succ else False
+    via_f = nid in cfg.reach(f_succ) if f_succ else False
+    # only sound when the `if` is not in a cycle with nid between (loops re-test the condition);
+    # the callers use it for straight-line guards inside one loop iteration or function body
+    if via_t and not via_f:
+      out.extend(facts(n.stmt.test, True))
+    elif via_f and not via_t:
+      out.extend(facts(n.stmt.test, False))
+  return out
+
+
+def loop_heads_around(fn, cfg, stmt):
+  """ids of the CFG loop-header nodes of the loops lexically enclosing stmt."""
+  from ..astutil import enclosing_chain
+  ls = [s for (s, f) in enclosing_chain(fn.node, stmt) if isinstance(s, (ast.For, ast.While))]
+  return {n.id for n in cfg.nodes if n.kind in ("for", "while") and any(n.stmt is s for s in ls)}
+
+
+def _reach_cut_edges(cfg, starts, cut_edges, removed=()):
+  """Nodes reachable from `starts` without crossing an edge of cut_edges or entering `removed`."""
+  removed = set(removed)
+  seen = set(s for s in starts if s not in removed)
+  todo = list(seen)
+  while todo:
+    a = todo.pop()
+    for b in cfg.succ[a]:
+      if (a, b) in cut_edges or b in seen or b in removed:
+        continue
+      seen.add(b)
+      todo.append(b)
+  return seen
+
+
+def eval3(test, atom_value):
+  """Three-valued truth of a test given atom_value(expr) -> True / False / None for its atoms."""
+  if isinstance(test, ast.UnaryOp) and isinstance(test.op, ast.Not):
+    v = eval3(test.operand, atom_value)
+    return None if v is None else (not v)
+  if isinstance(test, ast.BoolOp):
+    vs = [eval3(v, atom_value) for v in test.values]
+    if isinstance(test.op, ast.And):
+      if any(v is False for v in vs):
+        return False
+      return True if all(v is True for v in vs) else None
+    if any(v is True for v in vs):
+      return True
+    return False if all(v is False for v in vs) else None
+  if isinstance(test, ast.Constant):
+    return bool(test.value)
+  return atom_value(test)
+
+
+def impossible_edges(cfg, atom_value):
+  """Branch edges of `if` nodes that cannot be taken when the atoms have the given values."""
+  out = set()
+  for n in cfg.nodes:
+    if n.kind != "if" or n.id not in cfg.if_true:
+      continue
+    v = eval3(n.stmt.test, atom_value)
+    if v is None:
+      continue
+    t_succ = cfg.if_true[n.id]
+    exc = cfg.if_exc.get(n.id, set())
+    f_succ = set(cfg.succ[n.id]) - t_succ - exc
+    out |= {(n.id, s) for s in (f_succ if v else t_succ)}
+  return out
+
+
+def reach_assuming(cfg, starts, atom_value, removed=()):
+  """Nodes reachable from starts on paths consistent with the assumed atom values."""
+  return _reach_cut_edges(cfg, set(starts), impossible_edges(cfg, atom_value), removed)
